@@ -1,4 +1,5 @@
 import RexModel.Gen.Async
+import RexModel.Async.Records
 import Mathlib.Algebra.Order.Field.Basic
 import Mathlib.Tactic.Linarith
 import Mathlib.Tactic.Ring
@@ -134,6 +135,37 @@ theorem arrival_ge (rnd : α → α) (hm : Monotone rnd) (sent delay prev : α) 
     rnd sent ≤ recv_sc rnd sent delay prev := by
   simp only [recv_sc]
   exact hm (le_trans (by linarith) (le_max_left _ _))
+
+/-- an ordered field with a rounding function and a floor division is a time carrier of the asynchronous machine -/
+@[reducible] def fieldTime (α : Type) [Field α] [LinearOrder α] (rnd : α → α) (fdiv : α → α → Int) : Rex.Async.TimeLike α :=
+  { toAdd := inferInstance, toSub := inferInstance, toMul := inferInstance, toDiv := inferInstance, toNeg := inferInstance,
+    toLT := inferInstance, toLE := inferInstance, toBEq := inferInstance, toMax := inferInstance, toMin := inferInstance,
+    toNatCast := inferInstance, toIntCast := inferInstance, toFloorDiv := ⟨fdiv⟩,
+    decLt := inferInstance, decLe := inferInstance, rnd := rnd }
+
+/-- **The start law holds for every recorded step, under every schedule** (machine level): in every state the asynchronous machine
+can reach — any graph, delay streams, step functions, thread interleaving — each recorded step started at the latest of its
+scheduled time plus accumulated drift, the end of the previous step and the arrival of its blocking inputs (the latter two only,
+for `advance` with only blocking inputs), and ended one sampled computation delay later. -/
+theorem C04_recorded_steps_obey_start_law (rnd : α → α) (fdiv : α → α → Int) :
+    letI := fieldTime α rnd fdiv
+    ∀ (cfg : Rex.Async.Cfg α) (n : Nat) (nc : Rex.Async.NodeCfg α), cfg.node n = some nc →
+    ∀ (σ : List Rex.Async.Rule) (s : Rex.Async.MSt α),
+      Rex.Conf.Run (Rex.Async.machine cfg).toNet.sys (Rex.Async.initState cfg) σ s →
+    ∀ r : Rex.Async.StepRec α, Rex.Async.Val.stepRec r ∈ s.q (.node n .record) →
+      r.tsStart = (if only_blocking nc.advance (nc.inputs.all cfg.blocking) = true then max r.hdr.tsMax r.hdr.tsEndPrev
+                   else max (max r.hdr.tsMax r.hdr.tsEndPrev) (r.hdr.tsScheduled + r.hdr.phaseScheduled)) ∧
+      r.tsEnd = r.tsStart + r.delay := by
+  letI := fieldTime α rnd fdiv
+  intro cfg n nc hnode σ s hrun r hr
+  have hinv := Rex.Async.recInv_run cfg n nc hnode hrun (Rex.Async.recInv_init cfg n nc)
+  have hw := hinv.2.1 _ hr
+  obtain ⟨⟨h1, h2, h3, h4⟩, h5⟩ := hw
+  refine ⟨?_, h5⟩
+  rw [h1, h2, h3, h4]
+  cases hob : only_blocking nc.advance (nc.inputs.all cfg.blocking) with
+  | true => simp only [if_true]; exact start_law_advance _ _ _ _
+  | false => simp only [Bool.false_eq_true, if_false]; exact start_law _ _ _ _
 
 -- non-vacuity of the hypotheses used above
 example : (0 : ℚ) ≤ 1 / 10 ∧ ((3 : ℚ) / 100 ≤ max (1 / 10 + 0) (2 / 100)) := by
